@@ -157,8 +157,13 @@ def run(ctx):
     # liveness of the design model, beyond the listed property (informational): no queued fetch starves,
     # every started fetch is eventually completed or abandoned (weak fairness of workers and idle wake-ups)
     live = ctx.tlc("MCFetchSched", "MCFetchSched_live_t.cfg" if thorough else "MCFetchSched_live.cfg", workers=8, timeout=3000 if thorough else 600,
-                   coverage=False, heap="8g", label="design model liveness: QueueDrains, TasksComplete under LiveSpec (informational)")
-    liveness = {"checked": not live.timed_out, "violated": live.violated, "distinct_states": live.distinct}
+                   coverage=False, heap="8g", label="design model liveness: QueueDrains, TasksComplete, PersistentRedialled under LiveSpec (informational)")
+    liveness = {"checked": not live.timed_out, "violated": live.violated, "distinct_states": live.distinct,
+                "properties": ["QueueDrains", "TasksComplete", "PersistentRedialled"]}
+    lived = ctx.tlc("MCFetchSched", "MCFetchSched_live_dev.cfg", workers=8, timeout=600, coverage=False, count=False, heap="8g",
+                    label="sanity: deviation stale-link must violate the liveness property PersistentRedialled")
+    if not lived.timed_out and not (lived.violated and "emporal" in str(lived.violated)):
+        raise vlib.ToolError(f"sanity run: deviation stale-link did not violate PersistentRedialled ({lived.violated})")
     if live.violated:
         vlib.log(f"design-model liveness property violated (informational, beyond C16): {live.violated}")
     behaviours = [c["ops"] for c in res.cases if c.get("ops")]
